@@ -266,11 +266,23 @@ def check(ctx):
                     a2 = ex.expand(r.value.args[2])
                     m = match("ResourceUsageReport($x.rows)", a2)
                     if m and match("_ResourceUsage()", m['x']):
-                        # the same ledger object must be the one handed to the pass
-                        ledger_name = r.value.args[2].args[0].value if isinstance(r.value.args[2], ast.Call) else None
+                        # the same ledger object must be the one handed to the pass: follow hoisted locals to the
+                        # ResourceUsageReport(<name>.rows) call and compare the definition of <name> at both places
+                        fl = flow_of(calc)
+                        cfgc = fl.cfg
+                        rep, at = r.value.args[2], cfgc.node_of(r)
+                        hops = 0
+                        while isinstance(rep, ast.Name) and hops < 5:
+                            d = fl.unique_def(rep.id, at)
+                            if d is None or d.value is None:
+                                break
+                            rep, at, hops = d.value, d.node, hops + 1
+                        led = rep.args[0].value if isinstance(rep, ast.Call) and rep.args and isinstance(rep.args[0], ast.Attribute) else None
+                        led_def = fl.unique_def(led.id, at) if isinstance(led, ast.Name) else None
                         passed = [c for f2, c in sched.pass_call_sites(ctx, S) if f2 is calc]
-                        if ledger_name is not None and passed and all(any(same(a, ledger_name) for a in c.args) for c in passed):
-                            o.site(calc, r, src(r.value.args[2]))
+                        if led_def is not None and passed and all(any(isinstance(a, ast.Name) and fl.unique_def(a.id, cfgc.node_containing(c)) is led_def
+                                                                     for a in c.args) for c in passed):
+                            o.site(calc, r, src(rep))
                         else:
                             o.refute(calc, r, r.value.args[2], "the report is not built from the ledger handed to the scheduling pass")
                     else:
